@@ -1,19 +1,24 @@
 import Driver.Pure
+import Driver.TableSuite
 /-
   vpmodel: reads lines `op<TAB>implementation observation`, prints `model observation<TAB>spec verdict`.
 -/
 open Driver
 
 structure DState where
-  dummy : Unit := ()
+  table : TableSt := {}
 
 def stepLine (st : DState) (line : String) : DState × String :=
   let parts := line.splitOn "\t"
   let op := parts.headD ""
   let implObs := (parts.drop 1).headD ""
   let toks := (op.splitOn " ").filter (· ≠ "")
+  if toks = ["reset"] then (({} : DState), "ok\t-") else
   match pureStep toks implObs with
   | some (m, s) => (st, m ++ "\t" ++ s)
+  | none =>
+  match tableStep st.table toks implObs with
+  | some (ts, m, s) => ({ st with table := ts }, m ++ "\t" ++ s)
   | none => (st, "bad-op\t-")
 
 partial def loop (h : IO.FS.Stream) (out : IO.FS.Stream) (st : DState) : IO Unit := do
